@@ -18,27 +18,28 @@ from .. import tlc
 from ..core import pool_map
 
 MODULE = "linalg/Subspace.tla"
-DEVS = ["LrsvWideMatrixIndex", "PcmWideMatrixShape", "WhitenEigNotOrthogonal", "SmwZeroSkipShiftsIndex", "ProjLazyOQFromCallerArray"]
+DEVS = ["LrsvWideMatrixIndex", "PcmWideMatrixShape", "WhitenEigNotOrthogonal", "SmwZeroSkipShiftsIndex", "ProjLazyOQFromCallerArray", "ConvNarrowIntHalfPrecision"]
 TOL = 1e-9
 HIST_MAX = 3         # = HistMax of the specification
 RTOL = 1e-8          # (rel) sub-claims through SVD / eig
 
 INVS = {
-    "proj": ["ProjHermitian", "ProjIdempotent", "ProjFixesA", "ProjComplementary", "ReflectTwice", "ProjRank", "ProjSplits"],
+    "proj": ["ProjHermitian", "ProjIdempotent", "ProjFixesA", "ProjComplementary", "ReflectTwice", "ProjRank", "ProjSplits", "ProjScaleLaw"],
     "projhist": ["ProjObjectCoherent", "ProjHistInputs"],
     "chord": ["ChordFormsAgree", "ChordSymmetric", "ChordZeroOnEqual", "ChordBasisInvariant", "ChordUnitaryInvariant", "ChordHouseholderIsUnitary", "ChordAngles", "ChordRange"],
     "chordx": ["ChordXFormsAgree", "ChordXSymmetric", "ChordXBasisInvariant", "ChordXUnitaryInvariant", "ChordXRange"],
-    "smw": ["SmwIsInverse"],
-    "conv": ["ConvInverse", "ConvOffset"],
-    "ebn0": ["EbLaw"],
-    "eig": ["EigSpectrum", "EigSelectors", "EigProjectorIsProjection"],
-    "svd": ["SvdSpectrum", "SvdSelectors", "SelectorsTotal"],
+    "smw": ["SmwIsInverse", "SmwScaleLaw"],
+    "conv": ["ConvInverse", "ConvOffset", "ConvFullPrecision"],
+    "ebn0": ["EbLaw", "ConvFullPrecision"],
+    "eig": ["EigSpectrum", "EigSelectors", "EigProjectorIsProjection", "EigScaleLaw"],
+    "svd": ["SvdSpectrum", "SvdSelectors", "SelectorsTotal", "SvdScaleLaw"],
     "gmd": ["GmdFullRank"],
     "whiten": ["WhitenInputIsHPD", "Whitens"],
     "eigrel": ["EigRelInput"],
 }
 INVS["projx"] = INVS["proj"]
-ACTION_OF = {"proj": "Proj", "projx": "Proj", "chord": "Chord", "chordx": "ChordX", "conv": "Conv", "ebn0": "Eb", "eig": "Eig", "svd": "Svd",
+INVS["projq"] = INVS["proj"]
+ACTION_OF = {"proj": "Proj", "projx": "Proj", "projq": "Proj", "chord": "Chord", "chordx": "ChordX", "conv": "Conv", "ebn0": "Eb", "eig": "Eig", "svd": "Svd",
              "gmd": "Gmd", "whiten": "Whiten", "eigrel": "EigRel"}
 ACTIONS = ["Proj", "ProjHistPick", "ProjHistStep", "Chord", "ChordX", "SmwPick", "SmwStep", "Conv", "Eb", "Eig", "Svd", "Gmd", "Whiten", "EigRel"]
 
@@ -57,6 +58,7 @@ def plan(tier):
         return [
             ("projx 2x1 (all)", "projx", [[2, 1]], 1, 81, 81),
             ("projx 3x1 (all)", "projx", [[3, 1]], 1, 729, 729),
+            ("projq 5..8 rows (exact, orthogonal-column construction)", "projq", [[5, 2], [6, 3], [7, 4], [8, 3], [8, 7], [5, 4], [6, 1], [7, 2]], 1, 80, 80),
             ("projhist (object histories)", "projhist", [[2, 1], [3, 1], [3, 2], [4, 2]], 2, 12, 12),
             ("proj 3x2/4x2/2x2 a=2", "proj", [[3, 2], [4, 2], [2, 2], [4, 1]], 2, 320, 320),
             ("proj 4x3/5x2/3x3 a=1", "proj", [[4, 3], [5, 2], [3, 3], [5, 1]], 1, 200, 200),
@@ -77,6 +79,7 @@ def plan(tier):
     return [
         ("projx 2x1 (all)", "projx", [[2, 1]], 1, 81, 81),
         ("projx 3x1 (all)", "projx", [[3, 1]], 1, 729, 729),
+        ("projq 5..8 rows (exact, orthogonal-column construction)", "projq", [[N, n] for N in range(5, 9) for n in range(1, N)], 1, 2200, 550),
         ("projhist (object histories)", "projhist", [[2, 1], [3, 1], [3, 2], [4, 2], [4, 1], [2, 2]], 2, 120, 30),
         ("projx 2x2 (all)", "projx", [[2, 2]], 1, 6561, 1100),
         ("projx 4x1 (all)", "projx", [[4, 1]], 1, 6561, 1100),
@@ -140,12 +143,19 @@ def relclose(a, b, tol=TOL):
     return abs(a - b) <= tol * abs(b)
 
 
-def variants(m):
-    """the dtypes an input matrix is offered in: complex always; float and int when it is real"""
+def scale_of(c):
+    """the magnitude regime of the case: the inputs are multiplied by k = 10^sc (ScalePower of the specification says
+    which, and by which power of k every observable then changes; observables are divided by it before comparing)"""
+    return 10.0 ** c.get("sc", 0)
+
+
+def variants(m, k=1.0):
+    """the dtypes an input matrix is offered in: complex always; float and int when it is real.  The complex / float
+    variants carry the magnitude k; the integer variant stays at magnitude 1 (k may be fractional)"""
     a = mat(m)
-    out = [("complex", a)]
+    out = [("complex", a * k)]
     if is_real(m):
-        out.append(("float", a.real.astype(float)))
+        out.append(("float", a.real.astype(float) * k))
         out.append(("int", np.rint(a.real).astype(np.int64)))
     return out
 
@@ -186,8 +196,20 @@ def ev_proj(c, o):
     P, oP = mat(c["num"], den), mat(c["onum"], den)
     PM, oPM, RM = mat(c["PM"], den), mat(c["oPM"], den), mat(c["RM"], den)
     M = mat(c["M"])
-    for dt, A in variants(c["A"]):
-        t = f"[{dt}] "
+    k = scale_of(c)
+    if c.get("AI"):
+        # a nearly dependent basis (cond ~ 1e4) of the SAME subspace: inv(A^H A) loses cond^2 eps ~ 1e-7
+        AI = mat(c["AI"]) * k
+        ok, Q = _call(o, "calcProjectionMatrix(nearly dependent basis)", calcProjectionMatrix, AI)
+        if ok:
+            o.check(close(Q, P, 1e-5), f"[k=1e{c['sc']}] calcProjectionMatrix of a nearly dependent basis of span(A) != P (tolerance 1e-5)")
+        ok, pr = _call(o, "Projection(nearly dependent basis)", Projection, AI)
+        if ok:
+            o.check(close(pr.project(M), PM, 1e-5) and close(pr.oProject(M), oPM, 1e-5) and close(pr.reflect(M), RM, 1e-5),
+                    f"[k=1e{c['sc']}] project / oProject / reflect with a nearly dependent basis of span(A) (tolerance 1e-5)")
+    for dt, A in variants(c["A"], k):
+        ka = 1.0 if dt == "int" else k
+        t = f"[{dt}, k=1e{c['sc'] if dt != 'int' else 0}] "
         ok, Q = _call(o, t + "calcProjectionMatrix", calcProjectionMatrix, A)
         if ok:
             o.check(close(Q, P), t + "calcProjectionMatrix(A) != A (A^H A)^-1 A^H")
@@ -206,8 +228,8 @@ def ev_proj(c, o):
                 t + "project / oProject / reflect of a 1-D vector differ from the matrix column result")
         # the laws of the property evaluated on the real object (the expected values are the inputs)
         o.check(close(pr.reflect(pr.reflect(M)), M), t + "reflect(reflect(M)) != M")
-        o.check(close(pr.project(A), mat(c["A"])), t + "project(A) != A")
-        o.check(close(pr.oProject(A), np.zeros(A.shape)), t + "oProject(A) != 0")
+        o.check(close(pr.project(A) / ka, mat(c["A"])), t + "project(A) != A")
+        o.check(close(pr.oProject(A) / ka, np.zeros(A.shape)), t + "oProject(A) != 0")
         o.check(close(pr.project(pr.project(M)), PM), t + "project is not idempotent")
         o.check(close(pr.project(M) + pr.oProject(M), M), t + "project(M) + oProject(M) != M")
         o.check(close(pr.Q, pr.Q.conj().T), t + "projection matrix is not Hermitian")
@@ -221,9 +243,10 @@ def ev_projhist(c, o):
     exp = {"project": mat(c["PM"], den), "oProject": mat(c["oPM"], den), "reflect": mat(c["RM"], den), "oQ": mat(c["onum"], den)}
     P1 = mat(c["num"], den)
     M = mat(c["M"])
-    for dt, A1 in variants(c["A1"])[:2]:
+    k = scale_of(c)
+    for dt, A1 in variants(c["A1"], k)[:2]:
         A = A1.copy()                                   # the caller's array
-        A2 = mat(c["A2"]).real.copy() if dt == "float" else mat(c["A2"])
+        A2 = (mat(c["A2"]).real.copy() if dt == "float" else mat(c["A2"])) * k
         current = A.copy()
         ok, pr = _call(o, f"[{dt}] Projection(A)", Projection, A)
         if not ok:
@@ -258,7 +281,9 @@ def ev_chord(c, o):
           ("calc_chordal_distance_from_principal_angles",
            lambda X, Y: mt.calc_chordal_distance_from_principal_angles(mt.calc_principal_angles(X, Y)))]
     real = is_real(c["A"]) and is_real(c["B"]) and is_real(c["T"])
-    A, B, AT, UA, UB, HA, HB = (mat(c[k]) for k in ("A", "B", "AT", "UA", "UB", "HA", "HB"))
+    k = scale_of(c)
+    A, AT, UA, HA = (mat(c[x]) * k for x in ("A", "AT", "UA", "HA"))        # first operand at magnitude k,
+    B, UB, HB = (mat(c[x]) / k for x in ("B", "UB", "HB"))                  # second operand at 1 / k
     sets = [("complex", A, B, AT)]
     if real:
         sets.append(("float", A.real.copy(), B.real.copy(), AT.real.copy()))
@@ -269,7 +294,22 @@ def ev_chord(c, o):
                 ok, d = _call(o, f"{name} {what}", f, x, y)
                 if ok:
                     d = float(np.real(d))
-                    o.check(d >= 0 and close(d * d, exp), f"[{dt}] {name}: {what}^2 = {d * d!r}, expected {exp!r}")
+                    o.check(d >= 0 and close(d * d, exp), f"[{dt}, k=1e{c['sc']}] {name}: {what}^2 = {d * d!r}, expected {exp!r}")
+            # "vanish exactly for equal subspaces": the identical array, a copy, another basis - judged at the level the
+            # routine can reach (sqrt(eps) for the arccos of the angle routine, rounding level for the projector routines)
+            zt = 1e-7 if "angles" in name else 1e-11
+            for what, x, y in (("d(A,A) (the same array)", a, a), ("d(A,A.copy())", a, a.copy()), ("d(A,AT)", a, at)):
+                ok, d = _call(o, f"{name} {what}", f, x, y)
+                if ok:
+                    o.check(0 <= float(np.real(d)) <= zt, f"[{dt}, k=1e{c['sc']}] {name}: {what} = {float(np.real(d))!r}, must vanish (<= {zt})")
+        if c.get("AI"):
+            # nearly dependent basis of span(A) (cond ~ 1e4): same subspace, same distance; the routine through
+            # inv(A^H A) is allowed cond^2 eps, the QR based ones cond eps
+            ok, d = _call(o, f"{name} d(AI,B)", f, mat(c["AI"]) * k, B)
+            if ok:
+                d = float(np.real(d))
+                o.check(d >= 0 and close(d * d, d2, 1e-5 if name.endswith("_2") else 1e-8),
+                        f"[k=1e{c['sc']}] {name}: d(nearly dependent basis of span(A), B)^2 = {d * d!r}, expected {d2!r}")
         for what, x, y in (("d(UA,UB) (common signed-permutation unitary)", UA, UB), ("d(HA,HB) (common Householder rotation)", HA, HB)):
             ok, d = _call(o, f"{name} {what}", f, x, y)
             if ok:
@@ -294,8 +334,10 @@ def ev_chordx(c, o):
     yields min(n1, n2) angles whose cos^2 sum to tr(P_A P_B), but no distance)"""
     from pyphysim.subspace import metrics as mt
     d2 = rat(c["d2"])
-    A, B, AT, BT, UA, UB, HA, HB = (mat(c[k]) for k in ("A", "B", "AT", "BT", "UA", "UB", "HA", "HB"))
-    real = all(is_real(c[k]) for k in ("A", "B", "AT", "BT"))
+    k = scale_of(c)
+    A, AT, UA, HA = (mat(c[x]) * k for x in ("A", "AT", "UA", "HA"))
+    B, BT, UB, HB = (mat(c[x]) / k for x in ("B", "BT", "UB", "HB"))
+    real = all(is_real(c[x]) for x in ("A", "B", "AT", "BT"))
     sets = [("complex", A, B, AT, BT)]
     if real:
         sets.append(("float", A.real.copy(), B.real.copy(), AT.real.copy(), BT.real.copy()))
@@ -327,16 +369,24 @@ def ev_chordx(c, o):
 def ev_smw(c, o):
     from pyphysim.util.misc import update_inv_sum_diag
     exp = mat(c["expInv"])
-    vs = [("complex", mat(c["inv0"])), ("complex/F-order", np.asfortranarray(mat(c["inv0"])))]
+    k = scale_of(c)                  # inv(A) / k with the diagonal k d gives inv(A + D) / k
+    dg = np.array([g2c(x) for x in c["diagk"]], dtype=complex)
+    shown = [complex(x) if x.imag else x.real for x in dg]
+    vs = [("complex", mat(c["inv0"]) / k), ("complex/F-order", np.asfortranarray(mat(c["inv0"]) / k))]
     if is_real(c["inv0"]):
-        vs.append(("float", mat(c["inv0"]).real.copy()))
-    # the diagonal (exact integers, zeros in any position) as float and as integer array
-    for dd, diag in (("float", np.array(c["diagk"], dtype=float)), ("int", np.array(c["diagk"], dtype=np.int64))):
+        vs.append(("float", mat(c["inv0"]).real.copy() / k))
+    # the diagonal (Gaussian integers, zeros in any position): complex, and float / integer array when it is real
+    ds = [("complex", dg * k)]
+    if not np.any(dg.imag):
+        ds += [("float", dg.real.copy() * k)] + ([("int", np.rint(dg.real).astype(np.int64))] if c.get("sc", 0) == 0 else [])
+    for dd, diag in ds:
         for dt, inv0 in vs:
+            if dd == "complex" and dt == "float":
+                continue                                  # a real-typed inverse with a complex-typed diagonal is not offered (see notes)
             keep = inv0.copy()
             ok, got = _call(o, "update_inv_sum_diag", update_inv_sum_diag, inv0, diag)
             if ok:
-                o.check(close(got, exp), f"[{dt}, diagonal {dd}] update_inv_sum_diag(inv(A), {c['diagk']}) != inv(A + D)")
+                o.check(close(np.asarray(got) * k, exp), f"[{dt}, diagonal {dd}, k=1e{c.get('sc', 0)}] update_inv_sum_diag(inv(A), {shown}) != inv(A + D)")
                 o.check(np.array_equal(keep, inv0), f"[{dt}] update_inv_sum_diag modified its input")
 
 
@@ -359,6 +409,24 @@ def ev_conv(c, o):
     o.check(close(cv.linear2dBm(cv.dBm2Linear(y)), y), f"linear2dBm(dBm2Linear({y})) != {y}")
     o.check(close(cv.linear2dBm(x) - cv.linear2dB(x), c["dBm"] - c["dB"]), f"linear2dBm - linear2dB != 30 at {m}e{k}")
     o.check(relclose(cv.dB2Linear(y) / cv.dBm2Linear(y), lin(1, c["linOfdB"] - c["linOfdBm"])), f"dB2Linear / dBm2Linear != 1000 at {y}")
+    # argument types: integer arrays, float32 arrays (single precision tolerance), numpy scalars
+    ia = np.array([10 * k, int(y)], dtype=np.int64)
+    o.check(relclose(cv.dB2Linear(ia)[0], lin(1, c["linOfdB"])) and relclose(cv.dBm2Linear(ia)[0], lin(1, c["linOfdBm"]))
+            and close(cv.linear2dB(cv.dB2Linear(ia)), ia.astype(float)), "integer ARRAY arguments: dB2Linear / dBm2Linear / round trip")
+    fa = np.array([10.0 * k, y], dtype=np.float32)
+    o.check(relclose(float(cv.dB2Linear(fa)[0]), lin(1, c["linOfdB"]), 1e-4) and close(np.asarray(cv.linear2dB(cv.dB2Linear(fa)), dtype=float), fa.astype(float), 1e-4),
+            "float32 ARRAY arguments: dB2Linear / round trip (tolerance 1e-4)")
+    o.check(relclose(cv.dB2Linear(np.int64(10 * k)), lin(1, c["linOfdB"])) and close(cv.linear2dB(np.float64(lin(1, k))), c["dB"]), "numpy scalar arguments")
+    # an integer-valued linear argument in the integer type the case names: same value as for the Python int
+    ty = int if c["atype"] == "int" else getattr(np, c["atype"])
+    fid = "ConvNarrowIntHalfPrecision" if c["atype"] in ("int16", "uint8", "int8", "uint16") else None
+    ref = cv.linear2dB(float(m))
+    o.check(close(float(cv.linear2dB(ty(m))), ref) and relclose(float(cv.dB2Linear(cv.linear2dB(ty(m)))), float(m))
+            and close(float(cv.linear2dBm(ty(m))), ref + 30), f"linear2dB / linear2dBm({c['atype']}({m})) differ from the value for the same number as float", fid)
+    if ty is not int:
+        av = np.array([m, 1, 10], dtype=ty)
+        o.check(close(np.asarray(cv.linear2dB(av), dtype=float), np.array([ref, 0.0, 10.0])),
+                f"linear2dB({c['atype']} array [{m}, 1, 10]) differs from the double precision values", fid)
     # array arguments
     arr = np.array([10.0 * k, y])
     got = cv.dBm2Linear(arr)
@@ -370,6 +438,10 @@ def ev_ebn0(c, o):
     k, b, y = c["k"], c["b"], float(c["y"])
     e0 = float(c["ebn0dB"])
     snr = cv.EbN0_dB_to_SNR_dB(e0, b)
+    ty = int if c["atype"] == "int" else getattr(np, c["atype"])
+    fid = "ConvNarrowIntHalfPrecision" if c["atype"] in ("int16", "uint8", "int8", "uint16") else None
+    o.check(close(float(cv.EbN0_dB_to_SNR_dB(e0, ty(b))), snr) and close(float(cv.SNR_dB_to_EbN0_dB(snr, ty(b))), e0),
+            f"bits_per_symb given as {c['atype']}({b}): result differs from the one for the Python int", fid)
     o.check(relclose(cv.dB2Linear(snr), lin(c["snrLin"]["m"], c["snrLin"]["e"])), f"SNR(linear) != {b} * Eb/N0(linear) at {e0} dB")
     o.check(close(cv.SNR_dB_to_EbN0_dB(snr, b), e0), f"SNR_dB_to_EbN0_dB(EbN0_dB_to_SNR_dB({e0}, {b})) != {e0}")
     o.check(close(cv.EbN0_dB_to_SNR_dB(cv.SNR_dB_to_EbN0_dB(y, b), b), y), f"EbN0_dB_to_SNR_dB(SNR_dB_to_EbN0_dB({y}, {b})) != {y}")
@@ -392,20 +464,28 @@ def ev_eig(c, o):
     from pyphysim.util.misc import peig, leig
     n, den = c["n"], c["den"]
     N = len(c["H"])
-    for dt, H in variants(c["H"]):
-        for name, f, D_exp, num in (("peig", peig, c["peigD"], c["domNum"]), ("leig", leig, c["leigD"], c["leastNum"])):
-            t = f"[{dt}] {name}(H, {n})"
+    k = scale_of(c)
+    for dt, H in variants(c["H"], k):
+        kh = 1.0 if dt == "int" else k
+        for name, f, D_exp, lo, hi in (("peig", peig, c["peigD"], c["domLoNum"], c["domHiNum"]),
+                                       ("leig", leig, c["leigD"], c["lstLoNum"], c["lstHiNum"])):
+            t = f"[{dt}, k=1e{c['sc'] if dt != 'int' else 0}{', repeated eigenvalues' if c['ties'] else ''}] {name}(H, {n})"
             ok, r = _call(o, t, f, H, n)
             if not ok:
                 continue
             V, D = r
             if not o.check(np.shape(V) == (N, n) and np.shape(D) == (n,), t + f": shapes {np.shape(V)}, {np.shape(D)}"):
                 continue
-            o.check(close(np.asarray(D, dtype=complex), np.array(D_exp, dtype=complex)),
-                    t + f": eigenvalues {np.round(np.real(D), 6).tolist()} expected {D_exp} (order matters)")
-            o.check(np.linalg.matrix_rank(V) == n and close(projector(np.asarray(V, dtype=complex)), mat(num, den), 1e-8),
-                    t + ": the returned columns do not span the expected eigen-subspace")
-            o.check(close(np.linalg.norm(V, axis=0), np.ones(n), 1e-8), t + ": columns are not unit vectors")
+            V = np.asarray(V, dtype=complex)
+            o.check(close(np.asarray(D, dtype=complex) / kh, np.array(D_exp, dtype=complex)),
+                    t + f": eigenvalues / k = {np.round(np.real(D) / kh, 6).tolist()} expected {D_exp} (order matters)")
+            # lo <= span(V) <= hi (equal unless the cut falls inside a group of equal eigenvalues)
+            Lo, Hi = mat(lo, den), mat(hi, den)
+            o.check(close(Hi @ V, V, 1e-8), t + ": a returned column lies outside the eigenspaces it may come from")
+            o.check(close(V @ (V.conj().T @ Lo), Lo, 1e-8), t + ": the returned columns miss an eigenvector they must contain")
+            o.check(close(V.conj().T @ V, np.eye(n), 1e-8), t + ": the returned columns are not orthonormal")
+            sc = float(np.max(np.abs(H)))
+            o.check(bool(np.all(np.abs(H @ V - V * np.asarray(D)) <= 1e-8 * sc)), t + ": H V != V diag(D)")
         for name, f in (("peig", peig), ("leig", leig)):
             try:
                 f(H, c["tooMany"])
@@ -419,14 +499,16 @@ def ev_eig(c, o):
 def ev_svd(c, o):
     from pyphysim.util.misc import least_right_singular_vectors, get_principal_component_matrix
     n, k, den, nc = c["n"], c["k"], c["den"], c["cols"]
+    ks = scale_of(c)
     if c["intdtype"]:
-        dt, A = "int", np.rint(mat(c["A"]).real).astype(np.int64)
+        dt, A, ks = "int", np.rint(mat(c["A"]).real).astype(np.int64), 1.0
     elif is_real(c["A"]):
-        dt, A = "float", mat(c["A"]).real.copy()
+        dt, A = "float", mat(c["A"]).real.copy() * ks
     else:
-        dt, A = "complex", mat(c["A"])
+        dt, A = "complex", mat(c["A"]) * ks
     lo, hi = mat(c["loNum"], den), mat(c["hiNum"], den)
-    t = f"[{dt}] least_right_singular_vectors(A {c['rows']}x{nc}, {n})"
+    tag = f"[{dt}, k=1e{c['sc'] if dt != 'int' else 0}{', repeated singular values' if c['ties'] else ''}]"
+    t = f"{tag} least_right_singular_vectors(A {c['rows']}x{nc}, {n})"
     fid = "LrsvWideMatrixIndex" if c["lrsvRaisesAsWas"] else None
     ok, r = _call(o, t, least_right_singular_vectors, A, n, fid=fid, exc=(IndexError,))
     if ok:
@@ -441,16 +523,16 @@ def ev_svd(c, o):
             exp = np.array(c["remS"], dtype=float)
             if o.check(S.shape == exp.shape, t + f": S has {S.shape} entries, V1 has {nc - n} columns", fid):
                 sc = max(1.0, float(np.max(np.abs(exp))) if exp.size else 1.0)
-                o.check(bool(np.all(np.abs(S - exp) <= 1e-8 * sc)), t + f": S = {np.round(S, 6).tolist()} expected {exp.tolist()}")
+                o.check(bool(np.all(np.abs(S / ks - exp) <= 1e-8 * sc)), t + f": S / k = {np.round(S / ks, 6).tolist()} expected {exp.tolist()}")
                 o.check(bool(np.all(np.abs(np.linalg.norm(mat(c["A"]) @ V1, axis=0) - exp) <= 1e-8 * sc)),
                         t + ": |A v| of the columns of V1 are not the expected singular values")
-    t = f"[{dt}] get_principal_component_matrix(A {c['rows']}x{nc}, {k})"
+    t = f"{tag} get_principal_component_matrix(A {c['rows']}x{nc}, {k})"
     fid = "PcmWideMatrixShape" if c["pcmRaisesAsWas"] else None
     ok, out = _call(o, t, get_principal_component_matrix, A, k, fid=fid, exc=(ValueError,))
     if ok:
         exp = mat(c["pcm"])
         sc = max(1.0, float(np.max(np.abs(mat(c["A"])))))
-        good = np.shape(out) == exp.shape and bool(np.all(np.abs(out - exp) <= 1e-8 * sc))
+        good = np.shape(out) == exp.shape and bool(np.all(np.abs(np.asarray(out) / ks - exp) <= 1e-8 * sc))
         o.check(good, t + ": differs from the first k columns of the best rank-k approximation",
                 "PcmIntDtypeTruncates" if dt == "int" else None)
 
@@ -458,16 +540,18 @@ def ev_svd(c, o):
 def ev_gmd(c, o):
     from pyphysim.util.misc import gmd
     p = c["p"]
-    for dt, A in variants(c["A"])[:2]:
+    k = scale_of(c)                  # gmd(k A): Q, P unchanged, R -> k R; the default tol = 0 must not cut anything
+    for dt, A in variants(c["A"], k)[:2]:
         U, S, Vh = np.linalg.svd(A)
         U2, S2, Vh2 = U.copy(), S.copy(), Vh.copy()
-        t = f"[{dt}] gmd of {A.shape[0]}x{A.shape[1]}"
+        t = f"[{dt}, k=1e{c.get('sc', 0)}] gmd of {A.shape[0]}x{A.shape[1]}"
         ok, r = _call(o, t, gmd, U, S, Vh)
         if not ok:
             continue
         Q, R, P = r
-        sc = max(1.0, float(np.max(np.abs(A))))
         o.check(np.array_equal(U, U2) and np.array_equal(S, S2) and np.array_equal(Vh, Vh2), t + ": inputs modified (InputsUntouched)")
+        A, S, R = A / k, S / k, np.asarray(R) / k        # back to magnitude 1 (the law: R is homogeneous of degree 1)
+        sc = max(1.0, float(np.max(np.abs(A))))
         if not o.check(Q.shape == (A.shape[0],) * 2 and P.shape == (A.shape[1],) * 2 and R.shape == A.shape, t + ": shapes"):
             continue
         o.check(bool(np.all(np.abs(Q @ R @ P.conj().T - A) <= RTOL * sc)), t + ": Q R P^H != A (Reconstructs)")
@@ -489,11 +573,13 @@ def ev_whiten(c, o):
     from pyphysim.util.misc import calc_whitening_matrix
     n = c["n"]
     fid = "WhitenEigNotOrthogonal" if c["degenerate"] else None
-    for dt, C in variants(c["C"])[:2]:
-        t = f"[{dt}] calc_whitening_matrix (C = A^H A + I, A {c['rowsA']}x{n})"
+    k = scale_of(c)                  # W(k C) = W(C) / sqrt(k)
+    for dt, C in variants(c["C"], k)[:2]:
+        t = f"[{dt}, k=1e{c.get('sc', 0)}] calc_whitening_matrix (C = A^H A + I, A {c['rowsA']}x{n})"
         ok, W = _call(o, t, calc_whitening_matrix, C)
         if not ok:
             continue
+        W, C = np.asarray(W) * np.sqrt(k), C / k
         o.check(np.shape(W) == (n, n) and close(W.conj().T @ C @ W, np.eye(n), RTOL), t + ": W^H C W != I", fid)
         if c["detC"] and np.shape(W) == (n, n):
             o.check(abs(abs(np.linalg.det(W)) ** 2 * c["detC"][0] - 1) <= 1e-7, t + ": |det W|^2 det C != 1", fid)
@@ -502,16 +588,20 @@ def ev_whiten(c, o):
 def ev_eigrel(c, o):
     from pyphysim.util.misc import peig, leig
     n, N = c["n"], len(c["H"])
-    for dt, H in variants(c["H"])[:2]:
+    k = scale_of(c)
+    for dt, H0 in variants(c["H"], k)[:2]:
+        H = H0 / k
         ev = np.linalg.eigvalsh(H)  # ascending, first principles
         sc = max(1.0, float(np.max(np.abs(H))))
         for name, f, ref in (("peig", peig, ev[::-1]), ("leig", leig, ev)):
             for nn in sorted({n, N}):
-                t = f"[{dt}] {name}(H {N}x{N}, {nn})"
-                ok, r = _call(o, t, f, H, nn)
+                t = f"[{dt}, k=1e{c.get('sc', 0)}] {name}(H {N}x{N}, {nn})"
+                ok, r = _call(o, t, f, H0, nn)
                 if not ok:
                     continue
                 V, D = r
+                D = np.asarray(D) / k
+                o.check(close(np.conj(np.asarray(V)).T @ V, np.eye(nn), RTOL), t + ": the returned columns are not orthonormal")
                 if not o.check(np.shape(V) == (N, nn) and np.shape(D) == (nn,), t + ": shapes"):
                     continue
                 o.check(bool(np.all(np.abs(H @ V - V * D) <= RTOL * sc)), t + ": H V != V diag(D) (EigenEquation)")
@@ -569,7 +659,8 @@ def model_devs(ctx):
             ("PcmWideMatrixShape", "svd", [[3, 2], [2, 3]], "SelectorsTotal"),
             ("WhitenEigNotOrthogonal", "whiten", [[2, 2], [1, 3]], "Whitens"),
             ("SmwZeroSkipShiftsIndex", "smw", [[3, 3], [2, 2]], "SmwIsInverse"),
-            ("ProjLazyOQFromCallerArray", "projhist", [[3, 1], [3, 2]], "ProjObjectCoherent")]
+            ("ProjLazyOQFromCallerArray", "projhist", [[3, 1], [3, 2]], "ProjObjectCoherent"),
+            ("ConvNarrowIntHalfPrecision", "ebn0", [[1, 1]], "ConvFullPrecision")]
 
     def one(j):
         dev, kind, shapes, inv = j
